@@ -197,4 +197,37 @@ theorem OpsOK_after {now : Int} (op : OpState) (hop : op.st ≠ .done) (l2 : Lis
     obtain ⟨_, c, _, _, _, _, _, h6⟩ := h
     exact OpsOK_after op hop l2 xs (some c) (fun y hy => hd y (by simp [hy])) h6
 
+/-- in a well-ordered job at most one record is running -/
+theorem OpsOK_one_processing {now : Int} : ∀ (l : List OpState) (prev : Option Int), OpsOK now prev l →
+    ∀ o₁ ∈ l, ∀ o₂ ∈ l, o₁.st = .processing → o₂.st = .processing → o₁ = o₂
+  | [], _, _, _, h, _, _, _, _ => by cases h
+  | x :: xs, prev, h, o₁, h₁, o₂, h₂, p₁, p₂ => by
+    cases hst : x.st with
+    | done =>
+      simp only [OpsOK, hst] at h
+      obtain ⟨_, c, _, _, _, _, _, h6⟩ := h
+      have e1 : o₁ ∈ xs := by
+        rcases List.mem_cons.mp h₁ with rfl | h; · rw [hst] at p₁; cases p₁
+        exact h
+      have e2 : o₂ ∈ xs := by
+        rcases List.mem_cons.mp h₂ with rfl | h; · rw [hst] at p₂; cases p₂
+        exact h
+      exact OpsOK_one_processing xs (some c) h6 o₁ e1 o₂ e2 p₁ p₂
+    | processing =>
+      simp only [OpsOK, hst] at h
+      obtain ⟨_, _, _, _, _, _, _, _, hi⟩ := h
+      have e1 : o₁ = x := by
+        rcases List.mem_cons.mp h₁ with rfl | h; · rfl
+        exact absurd (hi o₁ h) (by rw [p₁]; simp)
+      have e2 : o₂ = x := by
+        rcases List.mem_cons.mp h₂ with rfl | h; · rfl
+        exact absurd (hi o₂ h) (by rw [p₂]; simp)
+      rw [e1, e2]
+    | idle =>
+      simp only [OpsOK, hst] at h
+      rcases List.mem_cons.mp h₁ with rfl | h'
+      · rw [hst] at p₁; cases p₁
+      · exact absurd (h o₁ h') (by rw [p₁]; simp)
+    | transport => simp [OpsOK, hst] at h
+
 end JSL
